@@ -31,7 +31,7 @@ POOLS = {
     "datetime": [None, -62135596800000000, -1, 0, 1, 1600000000000000, 1600000000000001, 253402300799999999],
     "timedelta": [None, -5, 0, 1, 2, 86400, 10 ** 9],
     "objint": [None, 1, 2, 10, 3, -4],
-    "objstr": [None, "a", "b", "10", "9", "B"],
+    "objstr": [None, "a", "b", "10", "9", "B", ""],      # ("" is an ordinary value in an object column: only None is missing there)
     "ustr": ["", "a", "b", "ab", "B", "zz"],
     # object columns with unusual elements (used by the aliasing / mutation check only): a float NaN kept as an element
     # (object arrays from pandas, np.where, Vector.fast), and list elements (what regex.findall / split produce)
